@@ -396,6 +396,7 @@ pub fn gen(rng: &mut Rng, size: usize) -> Value {
             if rng.chance(2, 3) { mutate(rng, &mut b); }
             b
         }
+        7 if rng.chance(1, 3) => crate::doc::write_doc(&crate::doc::normalise_doc(&crate::c06::gen(rng, size)["doc"])),   // C06's damaged mappings in every document context
         7 if rng.chance(1, 2) => crate::doc::write_doc(&crate::c09::gen_hermes_doc(rng, size)),
         7 => { // well-formed documents of the map family: long lines, range flags, > 64 sources/names, every VLQ digit class
             let m = if rng.chance(1, 2) { crate::c04::gen_c07(rng, size) } else { { let wr = rng.chance(1, 2); crate::c01::gen_model(rng, size, wr) } };
